@@ -378,6 +378,9 @@ def main():
                          "    the models were last validated against the code (written by `translate/shape_extract.py --bless`;\n"
                          "    never at check time).  `Properties/Cxx.lean` proves that the skeletons re-extracted from the current\n"
                          "    source (`Generated/Shapes.lean`) equal these. -/"))
+        common.write_if_changed(os.path.join(common.LEAN, "MythVerif", "Generated", "Shapes.lean"),
+                                emit("MythVerif.Gen.Shapes", shapes,
+                                     "-- GENERATED by translate/shape_extract.py from /repo's current sources; do not edit."))
         print("blessed", sum(len(v) for v in shapes.values()), "functions")
         return 0
     shapes, err = run()
